@@ -51,7 +51,76 @@ Definition header_words (c : config) : nat :=
                     | n => match switch_of_name n with Some s => checks c s | None => true end
                     end) cfg_header_fields).
 
-(* ------------------------------------------------------------------ 2. abstract interpreter *)
+(* ------------------------------------------------------------------ 2a. method cache (Type.c) *)
+
+(* A type object: the cache slots in front (CELLO_CACHE_HEADER, filled lazily) and the instance list
+   `{class name, instance}` that Type_Scan walks.  An instance is an abstract identity. *)
+Definition inst := nat.
+Record tyobj := mkTy { tslots : list (option inst); tinsts : list (string * inst) }.
+Definition types := list tyobj.
+
+(* Type_Scan(self, cls): first entry of the instance list for that class, NULL when absent *)
+Fixpoint scan (l : list (string * inst)) (c : string) : option inst :=
+  match l with
+  | [] => None
+  | (n, i) :: t => if String.eqb n c then Some i else scan t c
+  end.
+
+(* the Type_Cache_Entry(slot, Class) lines of Type_Instance (Generated.cfg_cache_wiring) *)
+Definition slot_of (c : string) : option nat :=
+  match find (fun w : nat * string => String.eqb (snd w) c) cfg_cache_wiring with
+  | Some w => Some (fst w)
+  | None => None
+  end.
+
+Fixpoint set_slot (l : list (option inst)) (i : nat) (v : option inst) : list (option inst) :=
+  match l, i with
+  | [], _ => []
+  | _ :: t, O => v :: t
+  | x :: t, S j => x :: set_slot t j v
+  end.
+
+(* Type_Instance(self, cls) under CELLO_CACHE == 1 / 0 *)
+Definition lookup (cached : bool) (t : tyobj) (c : string) : tyobj * option inst :=
+  if cached then
+    match slot_of c with
+    | Some i =>
+      match nth_error (tslots t) i with
+      | Some (Some x) => (t, Some x)                               (* slot filled: trusted *)
+      | Some None => let r := scan (tinsts t) c in                 (* inst = Type_Scan(..); slot i of self = inst *)
+                     (mkTy (set_slot (tslots t) i r) (tinsts t), r)
+      | None => (t, scan (tinsts t) c)
+      end
+    | None => (t, scan (tinsts t) c)                               (* class without a slot *)
+    end
+  else (t, scan (tinsts t) c).
+
+Fixpoint set_type (T : types) (n : nat) (t : tyobj) : types :=
+  match T, n with
+  | [], _ => []
+  | _ :: r, O => t :: r
+  | x :: r, S m => x :: set_type r m t
+  end.
+
+Definition lookup_in (cached : bool) (T : types) (ty : nat) (c : string) : types * option inst :=
+  match nth_error T ty with
+  | Some t => let '(t', r) := lookup cached t c in (set_type T ty t', r)
+  | None => (T, None)
+  end.
+
+Definition scan_in (T : types) (ty : nat) (c : string) : option inst :=
+  match nth_error T ty with
+  | Some t => scan (tinsts t) c
+  | None => None
+  end.
+
+Fixpoint nodupb (l : list nat) : bool :=
+  match l with
+  | [] => true
+  | x :: t => negb (existsb (Nat.eqb x) t) && nodupb t
+  end.
+
+(* ------------------------------------------------------------------ 2b. abstract interpreter *)
 
 Inductive xexn := XIndexOutOfBounds | XValueError | XKeyError | XOutOfMemory | XResourceError
                | XClassError | XTypeError | XFormatError | XUser (n : nat).
@@ -71,28 +140,33 @@ Section Interp.
        Get k          read the current state
        Put s k        write the state
        Chk sw b e k   #if CELLO_<sw>_CHECK == 1   if (b) { throw(e, …); }   #endif  ; k
+       Disp ty cl k   inst = type_instance(ty, cl)  — through the method cache when CELLO_CACHE == 1
      `b` has been computed from what the body read before — a test only, no update. *)
   Inductive prog :=
   | Ret (o : outcome)
   | Get (k : St -> prog)
   | Put (s : St) (k : prog)
-  | Chk (sw : switch) (b : bool) (e : xexn) (k : prog).
+  | Chk (sw : switch) (b : bool) (e : xexn) (k : prog)
+  | Disp (ty : nat) (cl : string) (k : option inst -> prog).
 
-  Fixpoint run (c : config) (p : prog) (s : St) : St * outcome :=
+  Fixpoint run (c : config) (p : prog) (s : St) (T : types) : St * types * outcome :=
     match p with
-    | Ret o => (s, o)
-    | Get k => run c (k s) s
-    | Put s' k => run c k s'
-    | Chk sw b e k => if checks c sw && b then (s, ORaise e) else run c k s
+    | Ret o => (s, T, o)
+    | Get k => run c (k s) s T
+    | Put s' k => run c k s' T
+    | Chk sw b e k => if checks c sw && b then (s, T, ORaise e) else run c k s T
+    | Disp ty cl k => let '(T', r) := lookup_in (cache c) T ty cl in run c (k r) s T'
     end.
 
-  (* does a guarded test succeed on the way (evaluated as the all-checks build runs the body)? *)
-  Fixpoint fires (p : prog) (s : St) : bool :=
+  (* does a guarded test succeed on the way (evaluated as the all-checks build runs the body;
+     dispatch by plain scan — what every build computes when its cache is sound)? *)
+  Fixpoint fires (p : prog) (s : St) (T : types) : bool :=
     match p with
     | Ret _ => false
-    | Get k => fires (k s) s
-    | Put s' k => fires k s'
-    | Chk _ b _ k => if b then true else fires k s
+    | Get k => fires (k s) s T
+    | Put s' k => fires k s' T
+    | Chk _ b _ k => if b then true else fires k s T
+    | Disp ty cl k => fires (k (scan_in T ty cl)) s T
     end.
 
   Definition is_raise (o : outcome) : bool := match o with ORaise _ => true | _ => false end.
@@ -104,28 +178,28 @@ Section Interp.
     Variable Op : Type.
     Variable body : Op -> prog.
 
-    Fixpoint run_history (c : config) (h : list Op) (s : St) : St * list outcome :=
+    Fixpoint run_history (c : config) (h : list Op) (s : St) (T : types) : St * types * list outcome :=
       match h with
-      | [] => (s, [])
+      | [] => (s, T, [])
       | o :: h' =>
-        let '(s', r) := run c (body o) s in
-        if is_crash r then (s', [r])
-        else let '(s'', rs) := run_history c h' s' in (s'', r :: rs)
+        let '(s', T', r) := run c (body o) s T in
+        if is_crash r then (s', T', [r])
+        else let '(s'', T'', rs) := run_history c h' s' T' in (s'', T'', r :: rs)
       end.
 
     (* some guarded test succeeds somewhere along the history (all-checks build) *)
-    Fixpoint history_fires (h : list Op) (s : St) : bool :=
+    Fixpoint history_fires (h : list Op) (s : St) (T : types) : bool :=
       match h with
       | [] => false
       | o :: h' =>
-        if fires (body o) s then true
-        else let '(s', r) := run cfg_default (body o) s in
-             if is_crash r then false else history_fires h' s'
+        if fires (body o) s T then true
+        else let '(s', T', r) := run cfg_default (body o) s T in
+             if is_crash r then false else history_fires h' s' T'
       end.
 
     (* the property's own wording: "no error path taken" under the default build *)
-    Definition no_error_path (h : list Op) (s : St) : bool :=
-      forallb (fun r => negb (is_raise r) && negb (is_crash r)) (snd (run_history cfg_default h s)).
+    Definition no_error_path (h : list Op) (s : St) (T : types) : bool :=
+      forallb (fun r => negb (is_raise r) && negb (is_crash r)) (snd (run_history cfg_default h s T)).
   End History.
 End Interp.
 
@@ -137,6 +211,7 @@ Arguments Ret {St Val} o.
 Arguments Get {St Val} k.
 Arguments Put {St Val} s k.
 Arguments Chk {St Val} sw b e k.
+Arguments Disp {St Val} ty cl k.
 
 (* ------------------------------------------------------------------ 3. the sequence API of Array.c *)
 
@@ -224,8 +299,25 @@ Definition abody (o : aop) : prog aseq Z :=
                   end)
   end.
 
-Definition arun (c : config) (h : list aop) (s : aseq) := run_history aseq Z aop abody c h s.
-Definition afires (h : list aop) (s : aseq) := history_fires aseq Z aop abody h s.
+(* the sequence operations dispatch nothing themselves: they run with an empty type table *)
+Definition arun (c : config) (h : list aop) (s : aseq) : aseq * list (outcome Z) :=
+  let '(s', _, rs) := run_history aseq Z aop abody c h s [] in (s', rs).
+Definition afires (h : list aop) (s : aseq) := history_fires aseq Z aop abody h s [].
+
+(* a second small API that does dispatch: `len`-like and `hash`-like calls on an object of type `ty`,
+   each a method lookup followed by a METHOD check (Type_Method_At_Offset) *)
+Inductive dop := DCall (ty : nat) (cl : string).
+
+Definition dbody (o : dop) : prog unit nat :=
+  match o with
+  | DCall ty cl =>
+    Disp ty cl (fun r =>
+      Chk SwMethod (match r with None => true | Some _ => false end) XClassError
+        (match r with Some i => Ret (OVal i) | None => Ret OCrash end))
+  end.
+
+(* all slots empty: a type object as the C initialiser CELLO_CACHE_HEADER leaves it *)
+Definition fresh_type (insts : list (string * inst)) : tyobj := mkTy (repeat None cello_cache_num) insts.
 
 (* configuration-free specification: Python-like indexing on lists; None = outside the contract *)
 Definition wrap (i n : Z) : Z := if i <? 0 then n + i else i.
